@@ -13,9 +13,16 @@ from pyvc.engine import Harness
 from pyvc import symnd
 
 SHAPES = [(1, 1), (1, 2), (2, 1), (2, 2)]
+# wider shapes for the obligations that stay (piecewise) linear per entry: row bounds, never-widen, combination counts
+WIDE = [(1, 3), (3, 1), (2, 3)]
 
 
-def sym_polyhedron(c, rows, cols, coef=None):
+# column ids deliberately not in sorted order (a seeded change iterated `sorted(variables)` in column_bounds: with ids
+# v0, v1, ... it was invisible)
+COL_IDS = ["q", "c", "m", "a", "x"]
+
+
+def sym_polyhedron(c, rows, cols, coef=None, ids=None):
     """ge_polyhedron of the real class with symbolic entries; bounds lo_j <= hi_j inside the default integer range"""
     repo = c.repo
     pnd = repo.load("puan.ndarray")
@@ -27,7 +34,7 @@ def sym_polyhedron(c, rows, cols, coef=None):
     for j in range(cols):
         c.assume_global(z3.And(lo[j].t <= hi[j].t, lo[j].t >= -32768, hi[j].t <= 32767))
     from .common import mk_variable
-    vs = [puan.variable(0, (1, 1))] + [mk_variable(repo, f"v{j}", lo[j], hi[j]) for j in range(cols)]
+    vs = [puan.variable(0, (1, 1))] + [mk_variable(repo, ids[j] if ids else f"v{j}", lo[j], hi[j]) for j in range(cols)]
     M = [[b[i]] + A[i] for i in range(rows)]
     p = pnd.ge_polyhedron(M, variables=vs, index=[puan.variable(f"r{i}") for i in range(rows)])
     return p, A, b, lo, hi
@@ -69,14 +76,15 @@ class _Arr(Harness):
             w["x"] = [g(v) for v in st["x"]]
         return w
 
-    @staticmethod
-    def build_native(w, b=None):
+    col_ids = None          # C12's own harnesses: COL_IDS
+
+    def build_native(self, w, b=None):
         import numpy as np
         import puan
         import puan.ndarray as pnd
         b = b if b is not None else w.get("b", [0] * len(w["A"]))
         M = np.array([[bi] + list(row) for bi, row in zip(b, w["A"])], dtype=np.int64)
-        vs = [puan.variable(0, (1, 1))] + [puan.variable(f"v{j}", (l, h)) for j, (l, h) in enumerate(zip(w["lo"], w["hi"]))]
+        vs = [puan.variable(0, (1, 1))] + [puan.variable(self.col_ids[j] if self.col_ids else f"v{j}", (l, h)) for j, (l, h) in enumerate(zip(w["lo"], w["hi"]))]
         return pnd.ge_polyhedron(M, variables=vs, index=[puan.variable(f"r{i}") for i in range(len(w["A"]))])
 
     def native_violations(self, p, w):
@@ -118,14 +126,21 @@ def _box(w, limit=20000):
     return sorted(pts)
 
 
-class RowBoundsH(_Arr):
+class _WideArr(_Arr):
+    col_ids = COL_IDS
+
+    def cases(self):
+        return [{"rows": r, "cols": k} for r, k in SHAPES + WIDE]
+
+
+class RowBoundsH(_WideArr):
     name = "ge_polyhedron.row_bounds"
     function = "ge_polyhedron.row_bounds"
     functions = ["ge_polyhedron.row_bounds", "ge_polyhedron.column_bounds", "ge_polyhedron.A", "ge_polyhedron.b",
                  "variable_ndarray.__new__"]
 
     def setup(self, c, case):
-        p, A, b, lo, hi = sym_polyhedron(c, case["rows"], case["cols"])
+        p, A, b, lo, hi = sym_polyhedron(c, case["rows"], case["cols"], ids=COL_IDS)
         return {"p": p, "A": A, "b": b, "lo": lo, "hi": hi, "x": point(c, case["cols"], lo, hi)}
 
     def native_violations(self, p, w):
@@ -177,6 +192,7 @@ def _tighten_native(p, w):
 
 
 class TightenH(_Arr):
+    col_ids = COL_IDS
     name = "ge_polyhedron.tighten_column_bounds"
     function = "ge_polyhedron.tighten_column_bounds"
     functions = ["ge_polyhedron.tighten_column_bounds", "ge_polyhedron.row_bounds", "ge_polyhedron.A_max", "ge_polyhedron.column_bounds"]
@@ -185,7 +201,7 @@ class TightenH(_Arr):
         return [{"rows": r, "cols": k} for r, k in SHAPES]
 
     def setup(self, c, case):
-        p, A, b, lo, hi = sym_polyhedron(c, case["rows"], case["cols"])
+        p, A, b, lo, hi = sym_polyhedron(c, case["rows"], case["cols"], ids=COL_IDS)
         if "signs" in case:
             flat = [A[i][j] for i in range(case["rows"]) for j in range(case["cols"])]
             for a, sgn in zip(flat, case["signs"]):
@@ -226,13 +242,13 @@ class TightenH(_Arr):
         return out
 
 
-class TightenNoWidenH(_Arr):
+class TightenNoWidenH(_WideArr):
     """never widens -- also when the polyhedron has no solution"""
     name = "ge_polyhedron.tighten_column_bounds/no-widen"
     function = "ge_polyhedron.tighten_column_bounds"
 
     def setup(self, c, case):
-        p, A, b, lo, hi = sym_polyhedron(c, case["rows"], case["cols"])
+        p, A, b, lo, hi = sym_polyhedron(c, case["rows"], case["cols"], ids=COL_IDS)
         return {"p": p, "lo": lo, "hi": hi, "A": A, "b": b}
 
     def native_violations(self, p, w):
@@ -247,12 +263,12 @@ class TightenNoWidenH(_Arr):
         return [(f"tighten.no-widen[{j}]", band(lb[j] >= st["lo"][j], ub[j] <= st["hi"][j])) for j in range(len(lb))]
 
 
-class NRowCombH(_Arr):
+class NRowCombH(_WideArr):
     name = "ge_polyhedron.n_row_combinations"
     function = "ge_polyhedron.n_row_combinations"
 
     def setup(self, c, case):
-        p, A, b, lo, hi = sym_polyhedron(c, case["rows"], case["cols"])
+        p, A, b, lo, hi = sym_polyhedron(c, case["rows"], case["cols"], ids=COL_IDS)
         return {"p": p, "A": A, "lo": lo, "hi": hi}
 
     def native_violations(self, p, w):
